@@ -3,6 +3,9 @@ import AtsimModel.Gen.Forms
 import Mathlib.Tactic.NormNum
 import Mathlib.Tactic.Positivity
 import Mathlib.Algebra.BigOperators.Intervals
+import Mathlib.Tactic.Ring
+import Mathlib.Tactic.FieldSimp
+import Mathlib.Tactic.IntervalCases
 /-!
 # C06 — built-in potential forms evaluate their documented formula, in documented argument order
 
@@ -133,6 +136,95 @@ example : buckDoc 1 2 3 1 ≠ buckDoc 3 2 1 1 := by
   intro h
   have : Real.exp (-1 / 2) = -1 := by linarith
   linarith [Real.exp_pos (-1 / 2 : ℝ)]
+
+/-! ## Tang–Toennies: the code evaluates the documented formula up to the rounding of its machine-expanded decimal constants
+
+`potentialfunctions.tang_toennies.__call__` is a machine-expanded expression (sympy output): every closed-form constant of the documented
+formula – `27.211`, `1/0.5292`, `27.211 * 0.5292^(2n)`, `(1/0.5292)^k / k!` – appears as a 14..20-digit decimal literal.  So the regenerated
+term is not syntactically the documented formula, and not exactly equal to it either.  What holds, and is proved here about the REGENERATED
+term `Atsim.Gen.tang_toennies_call`: the documented formula is the "shape" `ttShape` with the closed-form constants (`C06_tt_doc_shape`), and
+the code is the SAME shape with constants each within relative 1e-13 of the closed forms (`C06_tang_toennies_shape`). -/
+
+/-- `Σ_{k < m} p k * b^k * r^k` -/
+noncomputable def ttPoly (p : ℕ → ℝ) (m : ℕ) (b r : ℝ) : ℝ := (Finset.range m).sum (fun k => p k * b ^ k * r ^ k)
+
+/-- the shape shared by the documented formula and the code: energy scale `E`, exponent scale `β`, dispersion prefactors `c 3, c 4, c 5`
+    (for C6, C8, C10) and damping-polynomial coefficients `p k` -/
+noncomputable def ttShape (E β : ℝ) (c p : ℕ → ℝ) (A b C6 C8 C10 r : ℝ) : ℝ :=
+  E * A * Real.exp (-(β * b * r))
+    - c 5 * C10 * (1 - ttPoly p 11 b r * Real.exp (-(β * b * r))) / r ^ 10
+    - c 3 * C6 * (1 - ttPoly p 7 b r * Real.exp (-(β * b * r))) / r ^ 6
+    - c 4 * C8 * (1 - ttPoly p 9 b r * Real.exp (-(β * b * r))) / r ^ 8
+
+/-- closed-form constants of the documented formula -/
+noncomputable def ttE : ℝ := 27211 / 10 ^ 3
+noncomputable def ttBeta : ℝ := 1 / (5292 / 10 ^ 4)
+noncomputable def ttC (n : ℕ) : ℝ := (27211 / 10 ^ 3) * (5292 / 10 ^ 4) ^ (2 * n)
+noncomputable def ttP (k : ℕ) : ℝ := (1 / (5292 / 10 ^ 4)) ^ k / (Nat.factorial k : ℝ)
+
+
+/-! ### the code's constants (reduced fractions of the decimal literals of the source) -/
+noncomputable def ttCodeE : ℝ := 27210999999999998522 / 10 ^ 18
+noncomputable def ttCodeBeta : ℝ := 18896447467876 / 10 ^ 13
+noncomputable def ttCodeC : ℕ → ℝ
+  | 3 => 59767283277249427798 / 10 ^ 20
+  | 4 => 16737985467421556685 / 10 ^ 20
+  | 5 => 46875170184330419709 / 10 ^ 21
+  | _ => 0
+noncomputable def ttCodeP : ℕ → ℝ
+  | 0 => 1
+  | 1 => 18896447467876038573 / 10 ^ 19
+  | 2 => 17853786345309936578 / 10 ^ 19
+  | 3 => 11245771192561058172 / 10 ^ 19
+  | 4 => 53126281143995923717 / 10 ^ 20
+  | 5 => 2007795961602264756 / 10 ^ 19
+  | 6 => 63233684857718089334 / 10 ^ 21
+  | 7 => 17069885773058547651 / 10 ^ 21
+  | 8 => 40320024974155677447 / 10 ^ 22
+  | 9 => 84656137091953641977 / 10 ^ 23
+  | 10 => 15997002473914140102 / 10 ^ 23
+  | _ => 0
+
+theorem tt_code_eq (A b C6 C8 C10 r : ℝ) :
+    ev [A, b, C6, C8, C10] tang_toennies_call r = ttShape ttCodeE ttCodeBeta ttCodeC ttCodeP A b C6 C8 C10 r := by
+  have hexp : -(ttCodeBeta * b * r) = -(4724111866969 / 2500000000000 : ℝ) * b * r := by
+    unfold ttCodeBeta; ring
+  simp only [ttShape, hexp]
+  simp only [ev, evalR, envOf, tang_toennies_call, List.getD_cons_zero, List.getD_cons_succ, ttPoly,
+    Finset.sum_range_succ, Finset.sum_range_zero, ttCodeC, ttCodeP, ttCodeE, Nat.cast_ofNat]
+  generalize Real.exp (-(4724111866969 / 2500000000000 : ℝ) * b * r) = x
+  ring
+
+/-- the documented formula is the shape with the closed-form constants (all r, with Lean's `x / 0 = 0` on both sides) -/
+theorem C06_tt_doc_shape (A b C6 C8 C10 r : ℝ) :
+    ttDoc A b C6 C8 C10 r = ttShape ttE ttBeta ttC ttP A b C6 C8 C10 r := by
+  have hexp : -b * (r / (5292 / 10 ^ 4 : ℝ)) = -(ttBeta * b * r) := by
+    unfold ttBeta; ring
+  have hexp' : -(b * (r / (5292 / 10 ^ 4 : ℝ))) = -(ttBeta * b * r) := by
+    unfold ttBeta; ring
+  simp only [ttDoc, f2n, ttShape, hexp, hexp']
+  generalize Real.exp (-(ttBeta * b * r)) = x
+  simp only [ttPoly, Finset.sum_range_succ, Finset.sum_range_zero, ttE, ttC, ttP, Nat.factorial]
+  by_cases hr : r = 0
+  · subst hr; simp; ring
+  · field_simp
+    ring
+
+/-- **the code**: the regenerated `tang_toennies.__call__` is the same shape, for all parameters and all r, with constants that agree with
+    the closed forms of the documented formula to better than 1e-13 relative -/
+theorem C06_tang_toennies_shape :
+    ∃ (E β : ℝ) (c p : ℕ → ℝ),
+      (∀ A b C6 C8 C10 r : ℝ, ev [A, b, C6, C8, C10] tang_toennies_call r = ttShape E β c p A b C6 C8 C10 r) ∧
+      |E / ttE - 1| ≤ 1 / 10 ^ 13 ∧ |β / ttBeta - 1| ≤ 1 / 10 ^ 13 ∧
+      (∀ n, n = 3 ∨ n = 4 ∨ n = 5 → |c n / ttC n - 1| ≤ 1 / 10 ^ 13) ∧
+      (∀ k, k ≤ 10 → |p k / ttP k - 1| ≤ 1 / 10 ^ 13) := by
+  refine ⟨ttCodeE, ttCodeBeta, ttCodeC, ttCodeP, tt_code_eq, ?_, ?_, ?_, ?_⟩
+  · norm_num [ttE, ttCodeE, abs_le]
+  · norm_num [ttBeta, ttCodeBeta, abs_le]
+  · intro n hn
+    rcases hn with rfl | rfl | rfl <;> norm_num [ttC, ttCodeC, abs_le]
+  · intro k hk
+    interval_cases k <;> norm_num [ttP, ttCodeP, Nat.factorial, abs_le]
 
 end Atsim.C06
 
